@@ -25,6 +25,13 @@ CallBack(j, th) == IF j < 1 THEN 0
                    ELSE CallBack(j - 1, th)
 CallLine(i) == CallBack(i - 1, Log[i].th)
 
+\* pipes the peer dropped so far in the current trace (drop lines back to the last reset)
+RECURSIVE DroppedBack(_, _)
+DroppedBack(j, acc) == IF j < 1 THEN acc
+                       ELSE IF Log[j].k = "reset" THEN acc
+                       ELSE DroppedBack(j - 1, IF Log[j].k = "drop" THEN acc \cup {Log[j].p} ELSE acc)
+DroppedSoFar(i) == DroppedBack(i - 1, {})
+
 \* Evaluated as a state constraint: record progress, stop TLC at acceptance.
 Progress(l) ==
   /\ IF l > TLCGet(1) THEN TLCSet(1, l) ELSE TRUE
